@@ -779,14 +779,18 @@ namespace occa {
                              fileOrigin origin,
                              const std::string &name_,
                              const std::string &contents) {
-      std::string source = name_;
-      source += ' ';
-      source += contents;
+      // The tokens of the definition, and every token later expanded from the
+      //   macro, point into the text they were read from: keep that text in a
+      //   reference-counted file_t instead of a local string
+      file_t *sourceFile = new file_t(origin.file->filename,
+                                      name_ + ' ' + contents);
+      sourceFile->expandedFilename = origin.file->expandedFilename;
+      fileOrigin sourceOrigin(*sourceFile);
 
       tokenVector tokens;
       tokenizer_t::tokenize(tokens,
-                            origin,
-                            source);
+                            sourceOrigin,
+                            sourceFile->content);
 
       const int tokenCount = (int) tokens.size();
       if (tokenCount == 0) {
